@@ -315,6 +315,7 @@ func runC19(c *Ctx) {
 			ok2, _ := wcf.MustPass(wcf.Entry(), eng.LocSet(wcf.LocOf(ret)), eng.LocSet(wloop...))
 			c.Check(K(w.Name, "return#"+itoa(i)+" replaced state"), ret.Pos(), ok1 && ok2 && len(qloc) >= 1 && len(wloop) == 1, "a successful Persist has deleted what was persisted before and written the current queue (also when the queue is empty)", "a nil return is reachable without the delete phase or the write loop")
 		}
+		c19CountThenCommit(c, w)
 		// written in queue order with all keys of each prefix
 		okOrder := false
 		w.Walk(func(n ast.Node) bool {
@@ -462,4 +463,141 @@ func runC19(c *Ctx) {
 		}
 		c.Check(K(en.Name, "adds prefix and keys"), en.Pos(), okPush && okAdd, "enqueueing pushes the prefix and adds all keys to the key trie", "Push/AddMany missing")
 	}
+}
+
+// c19CountThenCommit: in each batching loop of Persist an operation is staged, then counted,
+// then the full-batch test runs — in that order, on every path through a turn.  The final
+// commit after the loop is skipped exactly when the count is a multiple of the batch size,
+// which is right only if the test inside the loop saw that same count (a test placed before
+// the staging sees the previous count and leaves the last full batch uncommitted).
+func c19CountThenCommit(c *Ctx, w *eng.Func) {
+	p := c.P
+	info := w.Info()
+	cf := w.CFG()
+	hasRem := func(n ast.Node, counter eng.Object) bool {
+		found := false
+		ast.Inspect(n, func(x ast.Node) bool {
+			if b, ok := x.(*ast.BinaryExpr); ok && b.Op == token.REM && (counter == nil || eng.IsObj(info, b.X, counter)) {
+				found = true
+			}
+			return true
+		})
+		return found
+	}
+	nLoops := 0
+	w.Walk(func(n ast.Node) bool {
+		rg, ok := n.(*ast.RangeStmt)
+		if !ok {
+			return true
+		}
+		// staging operations of this loop
+		var stages []eng.Loc
+		ast.Inspect(rg.Body, func(x ast.Node) bool {
+			call, isCall := x.(*ast.CallExpr)
+			if !isCall {
+				return true
+			}
+			sel, isSel := eng.Unparen(call.Fun).(*ast.SelectorExpr)
+			if !isSel || (sel.Sel.Name != "Put" && sel.Sel.Name != "Delete") {
+				return true
+			}
+			if tv, has := info.Types[sel.X]; has && strings.HasSuffix(eng.TypeName(tv.Type), "go-datastore.Batch") {
+				stages = append(stages, cf.LocsOf(call)...)
+			}
+			return true
+		})
+		if len(stages) == 0 {
+			return true
+		}
+		nLoops++
+		var counter eng.Object
+		var incs []eng.Loc
+		ast.Inspect(rg.Body, func(x ast.Node) bool {
+			if st, isInc := x.(*ast.IncDecStmt); isInc && st.Tok == token.INC {
+				if o := eng.ObjOf(info, st.X); o != nil {
+					counter = o
+					incs = append(incs, cf.LocsOf(st)...)
+				}
+			}
+			return true
+		})
+		if !c.Check(K(w.Name, "loop#"+itoa(nLoops)+" counts"), rg.Pos(), counter != nil && len(incs) == 1, "each turn of a batching loop counts its operation once", "found "+itoa(len(incs))+" increments") {
+			return true
+		}
+		// the full-batch test: a `counter % size` test in the body, directly or in a local closure handed the counter
+		var tests []eng.Loc
+		ast.Inspect(rg.Body, func(x ast.Node) bool {
+			switch y := x.(type) {
+			case *ast.FuncLit:
+				return false
+			case *ast.CallExpr:
+				g := p.ClosureOfLocal(w, y.Fun)
+				if g == nil {
+					g = p.Func(eng.CalleeName(info, y)) // a helper of the package doing the same
+				}
+				if g != nil && g.Body != nil && hasRem(g.Body, nil) {
+					passes := false
+					for _, a := range y.Args {
+						if eng.IsObj(info, a, counter) {
+							passes = true
+						}
+					}
+					if passes {
+						tests = append(tests, cf.LocsOf(y)...)
+					}
+				}
+			case *ast.BinaryExpr:
+				if y.Op == token.REM && eng.IsObj(info, y.X, counter) {
+					tests = append(tests, cf.LocsOf(y)...)
+				}
+			}
+			return true
+		})
+		// a location belongs to the loop body when its node does, or when it lies in the copy of a
+		// helper read in place of a call in the body
+		inBody := func(l eng.Loc) bool {
+			if l.I >= 0 && l.I < len(l.B.Nodes) && eng.Contains(rg.Body, l.B.Nodes[l.I]) {
+				return true
+			}
+			cs := cf.CallSiteAt(l)
+			return cs != nil && eng.Contains(rg.Body, cs)
+		}
+		w.Walk(func(x ast.Node) bool {
+			if b, isB := x.(*ast.BinaryExpr); isB && b.Op == token.REM && !eng.Contains(rg.Body, b) {
+				for _, l := range cf.LocsOf(b) {
+					if cf.CallSiteAt(l) != nil && inBody(l) && eng.IsObj(info, exprAt(cf, l, b.X), counter) {
+						tests = append(tests, l)
+					}
+				}
+			}
+			return true
+		})
+		var outs []eng.Loc
+		for _, b := range cf.G.Blocks {
+			if !b.Live {
+				continue
+			}
+			for i := range b.Nodes {
+				if l := (eng.Loc{B: b, I: i}); !inBody(l) {
+					outs = append(outs, l)
+				}
+			}
+		}
+		// error returns inside the body leave the function: only turns that go on matter
+		var goOn []eng.Loc
+		for _, o := range outs {
+			if _, isRet := o.B.Nodes[o.I].(*ast.ReturnStmt); !isRet {
+				goOn = append(goOn, o)
+			}
+		}
+		ok1, w1 := cf.MustPass(incs[0], eng.LocSet(goOn...), eng.LocSet(tests...))
+		r2, w2 := cf.Reach(cf.FirstLocIn(rg.Body), eng.LocSet(tests...), eng.ReachOpt{CutLoc: eng.LocSet(incs...)})
+		wit := w1
+		if r2 {
+			wit = w2
+		}
+		c.CheckW(K(w.Name, "loop#"+itoa(nLoops)+" counts before the full-batch test"), rg.Pos(), ok1 && !r2 && len(tests) >= 1, "in a turn the operation is counted first and the full-batch test (count % batchSize) runs after it, before the next turn", "the full-batch test can run before the turn's operation is counted, or a turn can end without it", cf.DescribePath(wit))
+		return true
+	})
+	c.Check(K(w.Name, "batching loops"), w.Pos(), nLoops == 2, "Persist has a delete loop and a write loop, both batched", "found "+itoa(nLoops))
 }
